@@ -40,7 +40,15 @@ type simReader struct {
 // that the library cannot get away with treating particular error values (io.EOF,
 // context.Canceled, wrapped sentinels) specially.
 func stubError(what string, variant int) error {
-	switch variant % 6 {
+	switch variant % 10 {
+	case 6:
+		return &timeoutErr{what}
+	case 7:
+		return io.ErrShortWrite // a sentinel the library itself may produce
+	case 8:
+		return &chameleonErr{what}
+	case 9:
+		return fmt.Errorf("%s: %w", what, io.ErrNoProgress)
 	case 1:
 		return fmt.Errorf("%s: %w", what, context.Canceled)
 	case 2:
@@ -53,6 +61,21 @@ func stubError(what string, variant int) error {
 		return &stubErr{what}
 	}
 	return fmt.Errorf("%s: %w", what, errors.New("injected failure"))
+}
+
+// timeoutErr looks like a network timeout (Timeout and Temporary report true).
+type timeoutErr struct{ what string }
+
+func (e *timeoutErr) Error() string   { return e.what + ": injected failure (i/o timeout)" }
+func (e *timeoutErr) Timeout() bool   { return true }
+func (e *timeoutErr) Temporary() bool { return true }
+
+// chameleonErr claims to be io.EOF and context.Canceled when asked with errors.Is.
+type chameleonErr struct{ what string }
+
+func (e *chameleonErr) Error() string { return e.what + ": injected failure (claims to be EOF)" }
+func (e *chameleonErr) Is(target error) bool {
+	return target == io.EOF || target == context.Canceled
 }
 
 type stubErr struct{ what string }
